@@ -569,6 +569,11 @@ def run(prog, tier):
         if f.rec.get('const') or f.kind == 'function' or f is w:
             if bad:
                 for e in bad[:3]:
+                    if e[0] == 'unknown':
+                        # the effect analysis could not tell what is written through (a pointer / iterator it does not resolve): no evidence either way
+                        res.undecided('purity', FX.fmt(e), f.loc(), 'a function of the save path writes through something the effect analysis cannot resolve (%s) [shape not read by the rule]' % FX.fmt(e),
+                                      function=f.sig, expr=FX.fmt(e))
+                        continue
                     res.viol('purity', FX.fmt(e), f.loc(), 'a function of the save path modifies state that outlives the call: %s' % FX.fmt(e),
                              function=f.sig, expr=FX.fmt(e))
             else:
